@@ -11,6 +11,7 @@
   allowed-prefix test) that is not banned and scored at least 50, and no other eligible
   candidate scored higher.
 -/
+import Distill.Proofs.ScanGroups
 import Distill.Props.LinkScoreProps
 import Distill.Props.AbsURLProps
 import Distill.Proofs.Pagination
@@ -42,6 +43,57 @@ theorem number_links (A : Atoms) (gs : List PGroup) (arg s1 s2 : String) :
     (r.1 = "" ∨ (isJs r.1 = false ∧ Src A gs r.1)) ∧
     (r.2 = "" ∨ (isJs r.2 = false ∧ Src A gs r.2 ∧ r.2 ≠ s1 ∧ r.2 ≠ s2)) :=
   Pg.number_links A gs arg s1 s2
+
+/-! ### from the DOM to the result of the page-number algorithm -/
+
+/-- every URL in the groups the DOM scan leaves is empty or the URL `getPageInfoAndText` gives for an
+anchor of the tree -/
+theorem scan_group_urls (S : Scan.A) (root : Node) (gs : List PGroup) (h : Scan.scanGroups S root = some gs) :
+    ∀ u ∈ groupURLs gs, u = "" ∨ ∃ id n, S.pageInfo id = some (n, u) := by
+  unfold Scan.scanGroups at h
+  simp only [Option.map_eq_some_iff] at h
+  obtain ⟨ops, hops, rfl⟩ := h
+  intro u hu
+  simp only [groupURLs, groupURLs', List.mem_flatMap, List.mem_map] at hu
+  obtain ⟨g, hg, q, hq, rfl⟩ := hu
+  have hadd := Pg.runOps_groups_from_added ops g hg q hq
+  unfold Pg.added at hadd
+  simp only [List.mem_filterMap] at hadd
+  obtain ⟨o, ho, hoq⟩ := hadd
+  have hok := Scan.scanOps_provenance S root ops hops o ho
+  cases o with
+  | add p =>
+    simp only [Option.some.injEq] at hoq
+    subst hoq
+    rcases hok with h0 | ⟨id, hid⟩
+    · exact Or.inl h0
+    · exact Or.inr ⟨id, p.num, hid⟩
+  | addGroup => cases hoq
+  | cleanUp => cases hoq
+
+/-- **Page-number algorithm, from the DOM to the result**: for every tree, with the scan, the groups,
+the detection and the final selection all in the model, NextPage is empty or — never a `javascript:`
+holder — the URL `getPageInfoAndText` gives for an anchor of the tree (by `page_info_provenance`: the
+cleaned form of an href on the page's host), or the document URL the detection may insert as first
+page. -/
+theorem page_number_next_from_dom (S : Scan.A) (root : Node) (gs : List PGroup) (h : Scan.scanGroups S root = some gs)
+    (A : Atoms) (arg s1 s2 : String) :
+    let r := numberPrevNext (detectParamInfo A gs arg) s1 s2
+    r.1 = "" ∨ (isJs r.1 = false ∧
+      ((∃ id n, S.pageInfo id = some (n, r.1)) ∨ r.1 = A.docURL ∨ r.1 = trimPathSlash A.docURL)) := by
+  intro r
+  rcases (number_links A gs arg s1 s2).1 with h0 | ⟨hj, hs⟩
+  · exact Or.inl h0
+  · by_cases he : r.1 = ""
+    · exact Or.inl he
+    · right
+      refine ⟨hj, ?_⟩
+      rcases hs with hs | hs | hs
+      · rcases scan_group_urls S root gs h _ hs with h1 | h1
+        · exact absurd h1 he
+        · exact Or.inl h1
+      · exact Or.inr (Or.inl hs)
+      · exact Or.inr (Or.inr hs)
 
 /-- when the document URL the detection works with (and may insert as first page) is one of the
 two spellings `FindPagination` compares with — `s2`, the escaped form without user info, is
